@@ -126,7 +126,7 @@ type out struct {
 	comments bool
 	labels   map[string]bool
 	nComment int
-	cmtAdj   bool // a comment was placed directly before or after a literal
+	cmtAdj   bool           // a comment was placed directly before or after a literal
 	ncbOps   map[*Expr]bool // binary nodes whose operator must not be preceded by a comment (known defect K7)
 	noCmtIn  map[*Expr]bool // unary nodes inside whose operand no comment is placed (known defect K7)
 	suppress int            // > 0: no comments
@@ -460,20 +460,20 @@ type eg struct {
 	noCalls  bool
 	noBigInt bool
 	noRegex  bool
-	nonzero  bool // no literal has the zero value of its type ("", 0, 0.0, 0s)
+	nonzero  bool              // no literal has the zero value of its type ("", 0, 0.0, 0s)
 	badVars  map[string]string // var name -> known defect class: not referenced inside lambdas
 	count    func(class string)
 }
 
 const (
-	classK1 = "K1 JSON of a lambda: function call (the function name is not serialised)"
+	classK1  = "K1 JSON of a lambda: function call (the function name is not serialised)"
 	classK12 = "K12 JSON of a lambda: function call without arguments (\"args\": null cannot be read back)"
-	classK4 = "K4 JSON of a lambda: integer literal beyond 2^53 (decoded through float64)"
+	classK4  = "K4 JSON of a lambda: integer literal beyond 2^53 (decoded through float64)"
 	classK10 = "K10 comment directly before a parenthesised regex literal (the formatter drops the parentheses; the regex line is then lexed as part of the comment)"
-	classK5 = "K5 format of an AST built without the parser: string ending in a backslash (needs triple quotes, StringNode.TripleQuotes unset)"
-	classK2 = "K2 format of an AST built without the parser: regex literal (RegexNode.Literal unset prints //)"
-	classT3 = "T3 pipeline/tick: a lambda var referenced inside a lambda is rendered as a nested 'lambda:' (unparseable)"
-	classT1 = "T1 pipeline/tick drops arguments that have the zero value of their type (and a node or property whose arguments are all zero)"
+	classK5  = "K5 format of an AST built without the parser: string ending in a backslash (needs triple quotes, StringNode.TripleQuotes unset)"
+	classK2  = "K2 format of an AST built without the parser: regex literal (RegexNode.Literal unset prints //)"
+	classT3  = "T3 pipeline/tick: a lambda var referenced inside a lambda is rendered as a nested 'lambda:' (unparseable)"
+	classT1  = "T1 pipeline/tick drops arguments that have the zero value of their type (and a node or property whose arguments are all zero)"
 )
 
 func (g *eg) zero(e *Expr, repl string) *Expr {
@@ -587,7 +587,8 @@ func (g *eg) strLit() *Expr {
 	}
 	return g.zero(&Expr{K: "str", V: v, TQ: tq}, "nz")
 }
-func (g *eg) ref() *Expr   { return &Expr{K: "ref", V: rapid.SampledFrom(refPool).Draw(g.t, "ref")} }
+func (g *eg) ref() *Expr { return &Expr{K: "ref", V: rapid.SampledFrom(refPool).Draw(g.t, "ref")} }
+
 // regex: the empty pattern can only be written directly after =~ !~ = (elsewhere "//" starts a comment)
 func (g *eg) regex(allowEmpty bool) *Expr {
 	v := rapid.SampledFrom(regexPool).Draw(g.t, "re")
